@@ -44,6 +44,9 @@ type PegSpec struct {
 	Mode     SpecMode
 	rowCache map[string][2]string
 	ruleDefs map[string]string // rule name -> definitions of the spec functions of its body
+	Nullable map[string]bool
+	LeftRec  map[string]bool
+	First    map[string]firstSet
 }
 
 type SpecMode struct {
@@ -174,6 +177,7 @@ func (ps *PegSpec) Prelude(ruleConst map[string]int, ast bool) string {
 	ps.consts = ruleConst
 	ps.Mode.Ast = ast
 	ps.computeAS()
+	ps.computeFirst()
 	var sb strings.Builder
 	sb.WriteString("; ---- pegspec\n(declare-sort TSeq 0)\n(declare-fun snoc (TSeq DT_token) TSeq)\n(declare-const seq_empty TSeq)\n")
 	sb.WriteString("(declare-fun abs ((Array Int DT_token) Int) TSeq)\n")
@@ -380,5 +384,213 @@ func (ps *PegSpec) RuleRowAt(r *PRule, p, a, m string) string {
 	fmt.Fprintf(&sb, "(assert (and (= (OK %d %s) (ok_%d %s)) (= (END %d %s) (end_%d %s))))\n", c, p, b.k, p, c, p, b.k, p)
 	fmt.Fprintf(&sb, "(assert (= (APP %d %s %s) (snoc (app_%d %s %s) %s)))\n", c, p, a, b.k, p, a, t)
 	fmt.Fprintf(&sb, "(assert (= (MX %d %s %s) (ite (ok_%d %s) (upd (mx_%d %s %s) %s) (mx_%d %s %s))))\n", c, p, m, b.k, p, b.k, p, m, t, b.k, p, m)
+	return sb.String()
+}
+
+// ---------------------------------------------------------------------------------------------
+// first sets (used by the proofs of -switch parsers): computed from the table, proved as lemmas
+
+type firstSet struct {
+	any    bool
+	ranges [][2]rune
+}
+
+func (a firstSet) union(b firstSet) firstSet {
+	if a.any || b.any {
+		return firstSet{any: true}
+	}
+	return firstSet{ranges: append(append([][2]rune{}, a.ranges...), b.ranges...)}
+}
+
+func (ps *PegSpec) computeFirst() {
+	ps.Nullable = map[string]bool{}
+	ps.First = map[string]firstSet{}
+	// nullable: least fixed point
+	var nullable func(n *PNode) bool
+	nullable = func(n *PNode) bool {
+		switch n.TypeName {
+		case "Character", "Range", "Dot", "String":
+			return false
+		case "Sequence":
+			for _, c := range n.Kids {
+				if !nullable(c) {
+					return false
+				}
+			}
+			return true
+		case "Alternate":
+			for _, c := range n.Kids {
+				if nullable(c) {
+					return true
+				}
+			}
+			return false
+		case "Plus", "Push":
+			return nullable(n.Kids[0])
+		case "Name":
+			if _, ok := ps.ByName[n.Str]; !ok {
+				return true
+			}
+			return ps.Nullable[n.Str]
+		}
+		return true // ? * & ! action predicate nil statechange
+	}
+	for changed := true; changed; {
+		changed = false
+		for _, r := range ps.Rules {
+			if !ps.Nullable[r.Name] && nullable(r.Body) {
+				ps.Nullable[r.Name] = true
+				changed = true
+			}
+		}
+	}
+	// left recursion: rule reaches itself through left positions
+	left := map[string]map[string]bool{}
+	var leftRefs func(n *PNode, out map[string]bool)
+	leftRefs = func(n *PNode, out map[string]bool) {
+		switch n.TypeName {
+		case "Sequence":
+			for _, c := range n.Kids {
+				leftRefs(c, out)
+				if !nullable(c) {
+					return
+				}
+			}
+		case "Name":
+			out[n.Str] = true
+		case "Range":
+		default:
+			for _, c := range n.Kids {
+				leftRefs(c, out)
+			}
+		}
+	}
+	for _, r := range ps.Rules {
+		left[r.Name] = map[string]bool{}
+		leftRefs(r.Body, left[r.Name])
+	}
+	ps.LeftRec = map[string]bool{}
+	for _, r := range ps.Rules {
+		seen := map[string]bool{}
+		stack := []string{r.Name}
+		for len(stack) > 0 {
+			x := stack[len(stack)-1]
+			stack = stack[:len(stack)-1]
+			for y := range left[x] {
+				if y == r.Name {
+					ps.LeftRec[r.Name] = true
+				}
+				if !seen[y] {
+					seen[y] = true
+					stack = append(stack, y)
+				}
+			}
+		}
+	}
+	// first sets: least fixed point (finite union of ranges or "any")
+	var first func(n *PNode) firstSet
+	first = func(n *PNode) firstSet {
+		switch n.TypeName {
+		case "Character":
+			r := []rune(n.Str)
+			if len(r) != 1 {
+				return firstSet{any: true}
+			}
+			return firstSet{ranges: [][2]rune{{r[0], r[0]}}}
+		case "Range":
+			lo, hi := []rune(n.Kids[0].Str), []rune(n.Kids[1].Str)
+			return firstSet{ranges: [][2]rune{{lo[0], hi[0]}}}
+		case "Dot":
+			return firstSet{any: true}
+		case "Sequence":
+			var f firstSet
+			for _, c := range n.Kids {
+				f = f.union(first(c))
+				if !nullable(c) {
+					return f
+				}
+			}
+			return f
+		case "Alternate", "Query", "Star", "Plus", "Push":
+			var f firstSet
+			for _, c := range n.Kids {
+				f = f.union(first(c))
+			}
+			return f
+		case "Name":
+			if _, ok := ps.ByName[n.Str]; !ok {
+				return firstSet{}
+			}
+			return ps.First[n.Str]
+		}
+		return firstSet{} // lookahead, action, predicate: contribute nothing (the node is nullable)
+	}
+	for iter := 0; iter < len(ps.Rules)+2; iter++ {
+		for _, r := range ps.Rules {
+			ps.First[r.Name] = first(r.Body)
+		}
+	}
+}
+
+func (f firstSet) smt(c string) string {
+	if f.any {
+		return "true"
+	}
+	var ors []string
+	seen := map[[2]rune]bool{}
+	for _, r := range f.ranges {
+		if seen[r] {
+			continue
+		}
+		seen[r] = true
+		if r[0] == r[1] {
+			ors = append(ors, fmt.Sprintf("(= %s %d)", c, r[0]))
+		} else {
+			ors = append(ors, fmt.Sprintf("(and (<= %d %s) (<= %s %d))", r[0], c, c, r[1]))
+		}
+	}
+	return or(ors...)
+}
+
+// hasFirstLemma: rules for which the lemma OK(r,p) => buf[p] in FIRST(r) is stated.
+func (ps *PegSpec) hasFirstLemma(r *PRule) bool {
+	return !ps.Nullable[r.Name] && !ps.LeftRec[r.Name] && !ps.First[r.Name].any && r.Const != 0
+}
+
+// FirstAxioms: the lemmas as patterned axioms (except for rule `skip`, whose lemma is being proved).
+func (ps *PegSpec) FirstAxioms(skip string) string {
+	var sb strings.Builder
+	for _, r := range ps.Rules {
+		if r.Name == skip || !ps.hasFirstLemma(r) {
+			continue
+		}
+		fmt.Fprintf(&sb, "(assert (forall ((p Int)) (! (=> (OK %d p) %s) :pattern ((OK %d p)))))\n", r.Const, ps.First[r.Name].smt("(select bufc p)"), r.Const)
+	}
+	return sb.String()
+}
+
+// FirstLemmaQuery: refutation query for the lemma of rule r (spec-level: no code involved).
+func (ps *PegSpec) FirstLemmaQuery(r *PRule, unitPrelude string) string {
+	var sb strings.Builder
+	sb.WriteString(unitPrelude)
+	sb.WriteString(ps.ruleDefs[r.Name])
+	sb.WriteString(ps.FirstAxioms(r.Name))
+	sb.WriteString("(declare-const p0 Int)\n(assert (and (<= 0 p0) (<= p0 n) (>= n 0) (= (select bufc n) " + endSymbolLit + ")))\n")
+	sb.WriteString("(assert (forall ((i Int)) (! (=> (and (<= 0 i) (< i n)) (and (<= 0 (select bufc i)) (<= (select bufc i) 1114111))) :pattern ((select bufc i)))))\n")
+	fmt.Fprintf(&sb, "(assert (= (OK %d p0) (ok_%d p0)))\n", r.Const, r.Body.k)
+	var stars func(n *PNode)
+	stars = func(n *PNode) {
+		if n.TypeName == "Star" || n.TypeName == "Plus" {
+			fmt.Fprintf(&sb, "(assert (trig_%d p0))\n", n.k)
+		}
+		if n.TypeName == "Range" {
+			return
+		}
+		for _, c := range n.Kids {
+			stars(c)
+		}
+	}
+	stars(r.Body)
+	fmt.Fprintf(&sb, "(assert (OK %d p0))\n(assert (not %s))\n", r.Const, ps.First[r.Name].smt("(select bufc p0)"))
 	return sb.String()
 }
